@@ -9,6 +9,19 @@ every tar stream `es`, `Contained D s0 (unpackAll D s0 es).1`.  The unchanged co
 `t → s/..` leaves a link inside the target that the kernel resolves to the target's parent; through such a link later
 entries also create directories and links outside).  The theorem in force is `C06_unpack_contained_partial` under the
 decidable hypothesis `noDotDotTargets` (no relative link target has a `..` component); entry NAMES are unrestricted.
+
+Scope (Audit-1): only `UnpackSquashedFromTarball` is modelled and proved about.  The other clauses of the property —
+a scan never modifies the scanned tree or the working directory, temporary files are removed, the image's temporary
+directory is gone after `CleanUp`, layer loading stays inside its extraction directory — are RUN-TIME OBSERVATIONS
+(`harness/cmd/c06scan`, `checks/c06.py: scan_stream`; C04's loader model writes only below the layer directories by
+construction of `Disk`), not theorems.
+
+On the hypothesis (Audit-1, MEDIUM): `noDotDotTargets` is sufficient, not necessary — `usr/bin/x → ../lib/y` violates it
+and is contained (`C06_hypothesis_only_sufficient`).  It is not weakened to "the target, resolved lexically from the
+link's directory, stays inside", because that is exactly what the code checks and it is unsound (finding 37); and a
+leading-`..`-only form is unsound as well when a link is placed THROUGH another link (`a/u → ..`, then
+`a/u/v → ../x` lands at `<target>/v` and points outside).  A sound weakening has to bound the `..` count of each link
+by the depth of the PHYSICAL directory the link ends up in, which depends on the state reached; not attempted.
 -/
 import Scalibr.Proofs.Unpack
 namespace Scalibr.Unpack
@@ -69,6 +82,41 @@ theorem outsideUnchangedB_sound (D : Path) (s0 s : FS) (h : ∀ p, isPrefix D p 
   | true => simp
   | false => simp [h p hp]
 
+/-- the other direction for clause 2, on the touched paths: a contained state passes the driver's link test (the test
+runs `resolve` with `fuelFor`, clause 2 quantifies over every fuel) -/
+theorem linksInsideB_of_Contained (D : Path) (s0 s : FS) (h : Contained D s0 s) : linksInsideB D s = true := by
+  unfold linksInsideB
+  rw [List.all_eq_true]
+  intro p _
+  cases hp : isPrefix D p with
+  | false => simp
+  | true =>
+    simp only [Bool.not_true, Bool.false_or]
+    cases hg : s.get p with
+    | none => rfl
+    | some o =>
+      cases o with
+      | dir => rfl
+      | file c => rfl
+      | link t =>
+        simp only
+        cases hr : linkDest D s (fuelFor s t.comps) p t with
+        | error e => rfl
+        | ok r => exact h.2 p t hp hg _ r hr
+
+/-- fuel (Audit-1 §1): `resolve`'s answer is independent of the fuel unless the fuel ran out … -/
+theorem C06_fuel_monotone (D : Path) (s : FS) (fuel : Nat) (cur : Path) (cs : List String) (x : Except RErr Path)
+    (h : resolve D s fuel cur cs = x) (hx : x ≠ .error .loop) (k : Nat) : resolve D s (fuel + k) cur cs = x :=
+  resolve_fuel_mono D s fuel cur cs x h hx k
+
+/-- … and the fuel the model uses (`fuelFor`: path length + 40 link texts) never runs out on a path that meets no
+link, however long the name is -/
+theorem C06_fuel_adequate_nolink (D : Path) (s : FS) (hnl : ∀ p t, s.get p ≠ some (.link t)) (cur : Path) (cs : List String) :
+    resolveA D s cur cs ≠ .error .loop := by
+  unfold resolveA fuelFor
+  rw [show cs.length + 40 * (maxLinkLen s + 1) + 1 = cs.length + 1 + 40 * (maxLinkLen s + 1) by omega]
+  exact resolve_nolink_adequate D s hnl cs cur _
+
 /-- the resolution lemma on its own: the core of the containment argument -/
 theorem C06_resolution_stays_inside (D : Path) (s : FS)
     (hl : ∀ p t, isPrefix D p = true → s.get p = some (.link t) → ".." ∉ t.comps)
@@ -106,6 +154,12 @@ theorem C06_unpack_writes_outside :
     (unpackAll exD exS0 ex37b).1.get ["sb", "d"] = some .dir ∧
     (unpackAll exD exS0 ex37b).1.get ["sb", "d", "f"] = none ∧
     outsideUnchangedB exD exS0 (unpackAll exD exS0 ex37b).1 = false := by decide
+
+/-- the hypothesis is only sufficient: an ordinary relative link with a leading `..` fails it and is contained -/
+def exRel : List TarEntry := [reg ["usr", "lib", "y"] 1, lnk ["usr", "bin", "x"] false ["..", "lib", "y"] "../lib/y"]
+theorem C06_hypothesis_only_sufficient :
+    noDotDotTargets exRel = false ∧ containedB exD exS0 (unpackAll exD exS0 exRel).1 = true ∧
+    (unpackAll exD exS0 exRel).1.get ["sb", "target", "usr", "bin", "x"] = some (.link ⟨false, ["..", "lib", "y"], "../lib/y"⟩) := by decide
 
 /-- the witness violates the hypothesis, as it must -/
 example : noDotDotTargets ex37 = false := by decide
